@@ -29,6 +29,8 @@ def run(prop, tier):
         for op in CONTROL:
             units.append(dict(pre=pre, opcode=op, sym_addr=True, branch_check=True, wall_s=600))
     units.sort(key=lambda u: 0 if u["opcode"] in (0xFE, 0x56, 0x5E, 0xF3, 0xFB) else 1)
+    for u in units:
+        u["known"] = [e for e in known if "witness" in e.get("match", {}) and common.unit_matches(e, u)]
     reps = common.run_units("contracts.cpu:unit_entry", units, budget=700)
     reps += common.run_units("contracts.cpu_lemmas:unit_lemmas", [dict(kind="inverse-pair-lemmas")], budget=300)
     v.absorb(reps, known)
